@@ -249,6 +249,12 @@ def big_square_case(ctx, index: int, rng: random.Random):
     w0 = rng.choice([5_000_000_000, 2**32, 3_037_000_500, 4_000_000_000]) if n < 100 else rng.choice([10**8, 2 * 10**8])
     data = np.asarray([rng.randrange(nb) + 0.5 for _ in range(n)])
     wts = np.asarray([w0 + rng.randint(0, 3) for _ in range(n)], dtype=np.int64)
+    if rng.random() < 0.25:
+        # one large negative weight (a correction entry) among many moderate positive ones in the same bin: the bin's weight stays positive,
+        # the square of the negative one is the biggest number around
+        n = 66
+        data = np.full(n, 0.5)
+        wts = np.asarray([-(2**32)] + [2**26 + rng.randint(0, 3) for _ in range(n - 1)], dtype=np.int64)
     dt = rng.choice([None, float, "float64", "int64"])
     form = rng.choice(["h1", "fill_n"])
     exp = [sum(Fraction(int(w)) ** 2 for x, w in zip(data, wts) if int(x) == k) for k in range(nb)]
